@@ -266,6 +266,56 @@ def cpp_case(c):
 def cpp_source(shard):
     return CPP_HEAD + '\n'.join(cpp_case(c) for c in shard) + '\nint main() {\n' + '\n'.join('  case_%d();' % c['id'] for c in shard) + '\n  return 0; }\n'
 
+def ub_positions(c):
+    """flat positions at which the C++ scalar evaluation of the tree is undefined (signed overflow in +, -, *, unary -, abs, or the
+    compound assignment; division by zero / INT_MIN / -1): the property compares with 'the same C++ scalar operations', which have no
+    value there, and the library's own scalar paths (remainder loop, boolean expressions, the scalar configuration) are compiled
+    under that licence - g++ folds (x * -1) == x to x == 0. Only integer boundary streams can overflow."""
+    if TY[c['ty']][2] or c['stream'] != 'boundary' or c['kind'] == 'divnum': return set()
+    bits = TY[c['ty']][1]; lo, hi = -(1 << (bits - 1)), (1 << (bits - 1)) - 1
+    d = leaf_data(c); ub = set()
+    class Skip(Exception): pass
+    def wrap(v):
+        v &= (1 << bits) - 1
+        return v - (1 << bits) if v > hi else v
+    def chk(v, p):
+        if not lo <= v <= hi: ub.add(p)
+        return wrap(v)
+    def ev(e, p):
+        if e[0] == 'leaf': return d[e[1]][p]
+        if e[0] == 'const': return wrap(int(e[1]))
+        if e[0] == 'un':
+            a = ev(e[2], p); op = e[1]
+            if op == 0: return chk(-a, p)
+            if op == 1: return chk(abs(a), p)
+            if op == 2: return 0 if a else 1
+            raise Skip()
+        a, b = ev(e[2], p), ev(e[3], p); op = e[1]
+        if op == 0: return chk(a + b, p)
+        if op == 1: return chk(a - b, p)
+        if op == 2: return chk(a * b, p)
+        if op == 3:
+            if b == 0 or (a == lo and b == -1): ub.add(p); return 0
+            return cdiv_(a, b)
+        if op == 4: return min(a, b)
+        if op == 5: return max(a, b)
+        return int({6: a < b, 7: a > b, 8: a <= b, 9: a >= b, 10: a == b, 11: a != b, 12: bool(a) and bool(b), 13: bool(a) or bool(b)}[op])
+    def cdiv_(a, b):
+        q = abs(a) // abs(b)
+        return q if (a >= 0) == (b >= 0) else -q
+    try:
+        for p in range(c['n']):
+            v = ev(c['tree'], p)
+            if c['kind'] != 'bool' and c['aop'] is not None:
+                d0 = d[0][p]
+                if c['aop'] == 0: chk(d0 + v, p)
+                elif c['aop'] == 1: chk(d0 - v, p)
+                elif c['aop'] == 2: chk(d0 * v, p)
+                elif v == 0 or (d0 == lo and v == -1): ub.add(p)
+    except Skip:
+        return set()
+    return ub
+
 def modelled(c):
     """cases the Z-valued Coq model can decide exactly"""
     if c['kind'] == 'divnum' or c['stream'] in ('special', 'frac'): return False
@@ -328,7 +378,7 @@ def main():
     for W in Ws:
         if model[W] != model[Ws[0]]:
             rep.violation('model result depends on the lane count', {'W': W}, no_input=True, key='model-lane-dependence')
-    n_eval = 0; n_model = 0; mism = []; dist = {}; maxdiv = 0.0
+    n_eval = 0; n_model = 0; mism = []; dist = {}; maxdiv = 0.0; n_ub_excused = 0
     for r in allres:
         if r[0] != 'B': continue
         _, cfg, si, res, log = r
@@ -357,7 +407,10 @@ def main():
                     if ex: maxdiv = max(maxdiv, float(abs(gv - ex) / abs(ex)) * 2 ** prec)
                 continue
             S = lines.get(('S', c['id']))
-            if S and int(S[0]) != 0:
+            ubp = ub_positions(c)
+            if S and int(S[0]) != 0 and int(S[1]) in ubp and int(S[0]) <= len(ubp):
+                n_ub_excused += 1          # every differing position can be one where the scalar C++ operation is undefined
+            elif S and int(S[0]) != 0:
                 mism.append({'kind': 'scalar-ref', 'cfg': cfg.name, 'case': c, 'index': int(S[1]), 'n_wrong': int(S[0]), 'impl': ' '.join(R[:48]), 'scalar_cpp': ' '.join(lines.get(('X', c['id']), [])[:48])})
             if modelled(c):
                 n_model += 1
@@ -365,7 +418,9 @@ def main():
                 want = model[W][c['id']][:c['n']]
                 got = [parse_num(t) for t in R]
                 got = [int(v) if not isinstance(v, str) and v.denominator == 1 else v for v in got]
-                if got != want:
+                if got != want and ubp and all(i in ubp for i in range(len(want)) if i >= len(got) or got[i] != want[i]):
+                    n_ub_excused += 1
+                elif got != want:
                     idx = next((i for i in range(len(want)) if i >= len(got) or got[i] != want[i]), -1)
                     mism.append({'kind': 'model', 'cfg': cfg.name, 'case': c, 'index': idx, 'impl': str(got[:48]), 'model': str(want[:48]),
                                  'impl_matches_scalar_cpp': bool(S and int(S[0]) == 0)})
@@ -383,7 +438,7 @@ def main():
             rep.violation('Coq model disagrees with the implementation although the implementation matches the C++ scalar operations: %s' % kkey, replay, no_input=True, key=kkey)
         else:
             rep.violation('assigned expression differs from the scalar operation applied element by element: %s (first wrong flat position %s)' % (kkey, m.get('index')), replay, key=kkey)
-    rep.cov.update({'evaluations': n_eval, 'distinct_nontrivial': len({(c['ty'], c['n'], str(c['tree']), c['aop']) for c in cases if c['tree'][0] != 'leaf'}),
+    rep.cov.update({'comparisons_differing_only_where_the_scalar_cpp_operation_is_undefined': n_ub_excused, 'evaluations': n_eval, 'distinct_nontrivial': len({(c['ty'], c['n'], str(c['tree']), c['aop']) for c in cases if c['tree'][0] != 'leaf'}),
                     'rule': 'one case = (element type, size n, expression tree of depth <= 3 over + - * / unary- abs sqrt min max comparisons && || !, assignment form, operand stream); non-trivial = the tree has at least one operator; streams: small integers, integer boundary values (wrap-around reference), IEEE specials, dyadic fractions; every case under every configuration; compared bit for bit with the same C++ scalar operations per element and (integer-valued cases) with the Coq model',
                     'samples': [dict(c, tree=str(c['tree'])) for c in cases[:6]], 'configurations': [c.name for c in cfgs],
                     'distribution_type_kind_stream': {'/'.join(k): v for k, v in sorted(dist.items())},
@@ -391,7 +446,7 @@ def main():
                     'max_error_divide_by_number_in_ulps': maxdiv})
     rep.assumptions = ['vector operations are lane-wise equal to the scalar ones (hypothesis lanewise_ok; established per (type, ABI, op) under C08)',
                        'transcendental functions are not required bit-exact by the property and are not judged',
-                       'signed overflow is undefined in scalar C++; the reference uses wrap-around (what the SIMD instructions compute)']
+                       'signed overflow is undefined in scalar C++; the reference uses wrap-around (what the SIMD instructions compute); a (case, configuration) whose result differs from the reference only at positions where an intermediate overflows (computed exactly per position by props/c02.py ub_positions) is counted, not reported: the scalar paths of the library are compiled under that licence']
     return rep.finish(proof=proof, trusted=['Coq 8.16.1 kernel (coqc), extraction cross-checked by vm_compute', 'lib/common.py, props/c02.py', 'harness/vh.h'])
 
 if __name__ == '__main__':
